@@ -845,3 +845,58 @@ func writeEvidence(root, prop, tier string, seed int, ps *PropertySpec, runs []*
 	os.MkdirAll(filepath.Join(root, "evidence"), 0755)
 	os.WriteFile(filepath.Join(root, "evidence", prop+".json"), d, 0644)
 }
+
+// cmdReplay: `symgo replay <file> [-repo /repo]` re-runs a stored counterexample/witness natively.
+func cmdReplay(args []string) {
+	fs := flag.NewFlagSet("replay", flag.ExitOnError)
+	repo := fs.String("repo", "/repo", "")
+	var file string
+	if len(args) > 0 && !strings.HasPrefix(args[0], "-") {
+		file = args[0]
+		args = args[1:]
+	}
+	fs.Parse(args)
+	if file == "" {
+		fmt.Println("usage: symgo replay <replay.json>")
+		os.Exit(2)
+	}
+	if abs, err := filepath.Abs(file); err == nil {
+		file = abs
+	}
+	data, err := os.ReadFile(file)
+	if err != nil {
+		fmt.Println(err)
+		os.Exit(2)
+	}
+	var rf struct {
+		Property   string `json:"property"`
+		Harness    string `json:"harness"`
+		Pkg        string `json:"pkg"`
+		Kind       string `json:"kind"`
+		Label      string `json:"label"`
+		ReplayKind string `json:"replay_kind"`
+		IDL        string `json:"idl"`
+		Detail     string `json:"detail"`
+	}
+	json.Unmarshal(data, &rf)
+	if rf.Kind == "generated-code" {
+		fmt.Printf("replay of a generated-code finding: write the IDL below to a file and run\n  go run ./meta/cmd/stub --idl <file> --output gen.go --path <pkg> && go build\n%s\nrecorded outcome: %s\n", rf.IDL, rf.Detail)
+		return
+	}
+	if rf.ReplayKind == "engine-trace" {
+		fmt.Printf("%s is an engine trace (schedule-dependent, cannot be forced natively); re-run: bin/symgo check %s --only %s\n", file, rf.Property, rf.Harness)
+		return
+	}
+	root := verifRoot()
+	scratch, _ := os.MkdirTemp("", "verif-replay-")
+	defer os.RemoveAll(scratch)
+	modfile := filepath.Join(scratch, "go.mod")
+	copyFile(filepath.Join(*repo, "go.mod"), modfile)
+	copyFile(filepath.Join(*repo, "go.sum"), filepath.Join(scratch, "go.sum"))
+	rp := newReplayer(*repo, root, scratch, modfile)
+	o := rp.run(HarnessSpec{Pkg: rf.Pkg, Func: rf.Harness}, file, false)
+	fmt.Printf("native replay of %s (%s %q): assert-failed=%q panicked=%v timed-out=%v race=%v\n%s\n", rf.Harness, rf.Kind, rf.Label, o.assertFail, o.panicked, o.timedOut, o.race, tail(o.output, 1500))
+	if o.assertFail != "" || o.panicked || o.timedOut {
+		os.Exit(1)
+	}
+}
